@@ -46,7 +46,7 @@ def pool_print_instances(thorough):
         ("assoc", _pool_consts(sock=3, ln=2, dial=1, protos=("a",), assocs=("x",), addrs="AddrsA0", kinds=("tfd", "dq")), u5),
         ("unicast", _pool_consts(sock=2, ln=2, dial=1, protos=("a",), addrs="AddrsA0U0", uips=("u1",)), u5),
         ("dq", _pool_consts(sock=2, ln=1, dial=1, share=1, lend=1, protos=("a",), addrs="AddrsA1", kinds=("dq",)), u5),
-        ("pref", _pool_consts(sock=2, ln=1, dial=2, protos=("a",), addrs="AddrsA1"), u5),
+        ("pref6", _pool_consts(sock=2, ln=1, dial=2, protos=("a",), addrs="AddrsA1", kinds=("tfd", "dq")), {"unit_s": 5, "set_vars": True, "v6": True}),
         ("uassoc", _pool_consts(sock=2, ln=2, dial=1, protos=("a",), assocs=("x",), addrs="AddrsU0", uips=("u1",)), u5),
         ("faults", _pool_consts(sock=2, ln=1, dial=1, faults=1, protos=("a",), addrs="AddrsA0U0", uips=("u1",), kinds=("dq",)), u5),
         ("single", _pool_consts(reuse=False, sock=2, ln=2, dial=1, share=1, faults=1, kinds=("tfd", "dq")), u5),
@@ -55,8 +55,8 @@ def pool_print_instances(thorough):
     ]
     if thorough:
         out += [
+            ("pref", _pool_consts(sock=2, ln=1, dial=2, protos=("a",), addrs="AddrsA1"), u5),
             ("core3", _pool_consts(sock=3, ln=2, dial=1, share=1, addrs="AddrsGlobal"), u5),
-            ("uni2", _pool_consts(sock=3, ln=2, dial=1, protos=("a",), assocs=("x",), addrs="AddrsA0U0", uips=("u1",)), u5),
             ("dial2", _pool_consts(sock=2, ln=1, dial=2, protos=("a",), addrs="AddrsA0U0", uips=("u1",), kinds=("tfd", "dq")), u5),
             ("lend", _pool_consts(sock=3, ln=2, dial=1, lend=1, protos=("a",), addrs="AddrsGlobal", kinds=("tfd", "dq")), u5),
             ("faults2", _pool_consts(sock=2, ln=2, dial=1, faults=2, protos=("a",), addrs="AddrsA1U1", uips=("u1",), kinds=("tfd", "dq")), u5),
@@ -66,13 +66,14 @@ def pool_print_instances(thorough):
 
 def pool_mc_instances(thorough):
     """(name, (consts, replace)) of the exhaustive runs (all clauses, free interleaving of the two dial steps)."""
-    out = [("x-dial2", _pool_consts(sock=3, ln=2, dial=2, protos=("a",), assocs=("x",), addrs="AddrsA0U0", uips=("u1",))),
-           ("x-single", _pool_consts(reuse=False, sock=3, ln=3, dial=2, share=1, faults=2, kinds=("tfd", "dq")))]
+    out = [("x-dial2", _pool_consts(sock=3, ln=2, dial=2, protos=("a",), assocs=("x",), addrs="AddrsA0U0", uips=("u1",)))]
     if thorough:
-        out += [("x-mixed", _pool_consts(sock=2, ln=2, dial=1, share=1, lend=1, faults=1, assocs=("x",), addrs="AddrsMixed", uips=("u1",), kinds=("tfd", "dq"))),
+        out += [("x-single", _pool_consts(reuse=False, sock=3, ln=3, dial=2, share=1, faults=2, kinds=("tfd", "dq"))),("x-mixed", _pool_consts(sock=2, ln=2, dial=1, share=1, lend=1, faults=1, assocs=("x",), addrs="AddrsMixed", uips=("u1",), kinds=("tfd", "dq"))),
+                ("x-uni2", _pool_consts(sock=3, ln=2, dial=1, protos=("a",), assocs=("x",), addrs="AddrsA0U0", uips=("u1",))),
                 ("x-dial2-faults", _pool_consts(sock=2, ln=2, dial=2, share=1, lend=1, faults=1, addrs="AddrsGlobal", kinds=("tfd", "dq")))]
     else:
-        out += [("x-mixed", _pool_consts(sock=2, ln=2, dial=1, share=0, lend=1, faults=1, protos=("a",), assocs=("x",), addrs="AddrsMixed", uips=("u1",), kinds=("tfd", "dq")))]
+        out += [("x-single", _pool_consts(reuse=False, sock=2, ln=2, dial=2, share=1, faults=1, kinds=("tfd", "dq"))),
+                ("x-mixed", _pool_consts(sock=2, ln=2, dial=1, share=0, lend=1, faults=1, protos=("a",), assocs=("x",), addrs="AddrsMixed", uips=("u1",), kinds=("tfd", "dq")))]
     return out
 
 
@@ -89,7 +90,7 @@ def demux_print_instances(thorough):
            ("l3c2q1", _demux_consts(3, 2, 1, ("a", "b")), {"queueLen": 1, "scaled": True})]
     if thorough:
         out += [("l3c3q1", _demux_consts(3, 3, 1), {"queueLen": 1, "scaled": True}),
-                ("l2c4q2", _demux_consts(2, 4, 2, ("a", "b")), {"queueLen": 2, "scaled": True})]
+                ("l2c3q2", _demux_consts(2, 3, 2, ("a", "b")), {"queueLen": 2, "scaled": True})]
     return out
 
 
@@ -268,9 +269,9 @@ def known_or_violation(ctx):
     """Stand-alone run (`./check C04qr`): findings are filed under the parent property."""
     keep = []
     for v in ctx.violations:
-        f = findings.match(PARENT, v.get("cls", ""))
+        f = findings.match("C04qr", v.get("cls", ""))
         if f:
-            line = "KNOWN-FINDING: property=%s %s" % (PARENT, f.get("what", v.get("what", "")))
+            line = "KNOWN-FINDING: property=%s %s" % ("C04qr", f.get("what", v.get("what", "")))
             if line not in ctx.known:
                 ctx.known.append(line)
         else:
@@ -290,10 +291,14 @@ def run_part(ctx, thorough):
     beh = ctx.sub("beh")
     pin, xin = pool_print_instances(thorough), pool_mc_instances(thorough)
     din, dxin = demux_print_instances(thorough), demux_mc_instances(thorough)
-    probes = [("C04qr_MC", "C04qr_MC.cfg", p, _pool_consts(sock=2, ln=2, dial=1, lend=1, protos=("a",)), POOL_INV, POOL_PROPS)
-              for p in ("ReachGcClose", "ReachReuseDialer", "ReachLentDone")]
-    probes += [("C04qr_DemuxMC", "C04qr_DemuxMC.cfg", p, _demux_consts(3, 3, 1), DEMUX_INV, DEMUX_PROPS)
-               for p in ("ReachOverflow", "ReachOrphan", "ReachRefusedLate", "ReachHandover")]
+    # reachability probes on the exhaustive models (thorough); in every tier the printed graphs are checked for the transition
+    # kinds that must occur (POOL_NEED / DEMUX_NEED), which covers the same states
+    probes = []
+    if thorough:
+        probes = [("C04qr_MC", "C04qr_MC.cfg", p, _pool_consts(sock=2, ln=2, dial=1, lend=1, protos=("a",)), POOL_INV, POOL_PROPS)
+                  for p in ("ReachGcClose", "ReachReuseDialer", "ReachLentDone")]
+        probes += [("C04qr_DemuxMC", "C04qr_DemuxMC.cfg", p, _demux_consts(3, 3, 1), DEMUX_INV, DEMUX_PROPS)
+                   for p in ("ReachOverflow", "ReachOrphan", "ReachRefusedLate", "ReachHandover")]
     with cf.ProcessPoolExecutor(max_workers=4) as pool, cf.ThreadPoolExecutor(max_workers=1) as tp:
         fp = [pool.submit(_print, (ctx, "pool", n, c, conf, beh)) for n, c, conf in pin]
         fp += [pool.submit(_print, (ctx, "demux", n, c, conf, beh)) for n, c, conf in din]
